@@ -60,7 +60,7 @@ func w11Gen(r *rand.Rand, prop, tier string) *simrt.Case {
 			op := simrt.Op{Actor: cn, Kind: "valid", A: int64(r.IntN(200)), B: int64(r.IntN(30)), C: int64(r.Uint32())}
 			if r.IntN(3) == 0 {
 				op.Kind = "mutant"
-				op.S = []string{"truncate", "clientid-neg", "clientid-huge", "tag-count-huge", "tag-size-huge", "tag-size-2e63", "len-zero", "len-short", "len-more-than-sent", "len-big", "garbage", "neg-len"}[r.IntN(12)]
+				op.S = []string{"truncate", "clientid-neg", "clientid-huge", "tag-count-huge", "tag-size-huge", "tag-size-2e63", "tag-varint-overlong", "len-zero", "len-short", "len-more-than-sent", "len-big", "garbage", "neg-len"}[r.IntN(13)]
 				op.D = int64(r.IntN(64))
 			}
 			c.Program = append(c.Program, op)
@@ -190,7 +190,7 @@ func w11Frame(op simrt.Op) *sentFrame {
 		binary.BigEndian.PutUint16(p[8:10], uint16(0x10000-2-int(op.D)%200))
 	case "clientid-huge":
 		binary.BigEndian.PutUint16(p[8:10], 0x7fff)
-	case "tag-count-huge", "tag-size-huge", "tag-size-2e63":
+	case "tag-count-huge", "tag-size-huge", "tag-size-2e63", "tag-varint-overlong":
 		// rebuild with a hostile tagged-field section after the client id
 		idLen := int(int16(binary.BigEndian.Uint16(p[8:10])))
 		if idLen < 0 {
@@ -205,6 +205,9 @@ func w11Frame(op simrt.Op) *sentFrame {
 		switch op.S {
 		case "tag-count-huge":
 			tags = binary.AppendUvarint(nil, 1<<40)
+		case "tag-varint-overlong":
+			// more continuation bytes than a 64-bit value can have (binary.Uvarint reports an overflow, n < 0)
+			tags = append(bytes.Repeat([]byte{0xff}, 10+int(op.D)%3), 0x02)
 		case "tag-size-huge":
 			tags = append(binary.AppendUvarint(binary.AppendUvarint(nil, 1), 7), binary.AppendUvarint(nil, 1<<31-1+uint64(op.D))...)
 		default:
